@@ -223,8 +223,13 @@ func refCompatible(vt, t *types.Type) bool {
 	if vt == nil || t == nil {
 		return false
 	}
-	if vt.Kind == types.KBot || t.Kind == types.KBot {
+	if vt.Kind == types.KBot {
+		// only as the element type of an empty container (refSelfConsistent
+		// insists on the emptiness)
 		return true
+	}
+	if t.Kind == types.KBot {
+		return false
 	}
 	if vt.Kind != t.Kind {
 		return false
@@ -264,6 +269,9 @@ func refSelfConsistent(v *val.Val) string {
 	switch v.Type.Kind {
 	case types.KList:
 		el := v.Type.List().El
+		if el.Kind == types.KBot && len(v.List().V) > 0 {
+			return "non-empty list whose own type is " + v.Type.String()
+		}
 		for _, x := range v.List().V {
 			if r := RefWellTyped(x, el); r != "" {
 				return "list element: " + r
@@ -271,6 +279,9 @@ func refSelfConsistent(v *val.Val) string {
 		}
 	case types.KMap:
 		mt := v.Type.Map()
+		if (mt.Val.Kind == types.KBot || mt.Key.Kind == types.KBot) && len(v.Map().V) > 0 {
+			return "non-empty map whose own type is " + v.Type.String()
+		}
 		for k, x := range v.Map().V {
 			_ = k
 			if r := RefWellTyped(x, mt.Val); r != "" {
